@@ -96,7 +96,7 @@ func l2Answers(args []string) int {
 	}()
 	time.Sleep(1200 * time.Millisecond) // B is not reading
 	nsent, answers, idle := -1, 0, 0
-	deadline := time.Now().Add(40 * time.Second)
+	deadline := time.Now().Add(90 * time.Second)
 	for time.Now().Before(deadline) {
 		if nsent < 0 {
 			select {
@@ -107,13 +107,13 @@ func l2Answers(args []string) int {
 		if nsent >= 0 && answers >= nsent {
 			break
 		}
-		b.tcp.SetReadDeadline(time.Now().Add(1500 * time.Millisecond))
+		b.tcp.SetReadDeadline(time.Now().Add(4 * time.Second))
 		var raw []byte
 		if err := websocket.Message.Receive(b.ws, &raw); err != nil {
 			if ne, ok := err.(interface{ Timeout() bool }); ok && ne.Timeout() {
 				idle++
 				if nsent >= 0 && idle >= 3 {
-					res["last_error"] = "nothing arrived for 4.5 s"
+					res["last_error"] = "nothing arrived for 12 s"
 					break
 				}
 				continue
@@ -198,18 +198,24 @@ func l2Oversize(args []string) int {
 		if err != nil {
 			row["send_error"] = err.Error()
 		}
-		_, gotErr := a.waitFor(fa, 1500*time.Millisecond, func(r received) bool {
+		// waits for something that must come are generous (a busy machine is slow, not wrong); waits for something that must
+		// NOT come are short
+		want := n > 10240
+		errWait, relayWait := 6*time.Second, 700*time.Millisecond
+		if !want {
+			errWait, relayWait = 700*time.Millisecond, 6*time.Second
+		}
+		_, gotErr := a.waitFor(fa, errWait, func(r received) bool {
 			if r.Type != 0 {
 				return false
 			}
 			var m hagallpb.ErrorResponse
 			return proto.Unmarshal(r.Body, &m) == nil && m.Code == hagallpb.ErrorCode_ERROR_CODE_TOO_LARGE
 		})
-		_, relayed := b.waitFor(fb, 700*time.Millisecond, func(r received) bool { return r.Type == 17 })
-		alive := !a.isClosed() && a.ping(2*time.Second)
+		_, relayed := b.waitFor(fb, relayWait, func(r received) bool { return r.Type == 17 })
+		alive := !a.isClosed() && a.ping(6*time.Second)
 		row["too_large_error"], row["relayed"], row["sender_still_connected"] = gotErr, relayed, alive
 		rows = append(rows, row)
-		want := n > 10240
 		if bad == "" {
 			switch {
 			case want && !gotErr:
